@@ -112,5 +112,5 @@ def finish(ctx):
         "the complete single-bit neighbourhoods enumerated on the implementation are a test (sampled keys/messages), reported as such",
     ]
     return ctx.finish(level="proof",
-                      rule="per sample (key, nonce, aad, msg <= 64 B): library encrypts, then the library decryptor runs over ALL single-bit flips of nonce, AAD, ciphertext, tag, all truncations and 4 one-byte extensions, one-shot and streaming (random cyclic chunk pattern, rotated per modification); one op line per (sample, field) carrying one verdict per modification; compared with the extracted model's verdicts and with the property oracle (untouched accepted with the right plaintext; everything else rejected); a cell = (scheme, style, field, parameter class)",
+                      rule="per sample (key, nonce, aad, msg <= 64 B): library encrypts, then the library decryptor runs over ALL single-bit flips of nonce, AAD, ciphertext, tag, all truncations and 4 one-byte extensions, one-shot (also in place, out == in, for the untouched ciphertext) and streaming (random cyclic chunk pattern, rotated per modification); one op line per (sample, field) carrying one verdict per modification; compared with the extracted model's verdicts and with the property oracle (untouched accepted with the right plaintext; everything else rejected); a cell = (scheme, style, field, parameter class)",
                       trusted=core.TRUSTED_COMMON + ["vlib/devdiff.py", "Coq files: Cipher/GCM.v CCM.v Aead.v GF128.v (models), AeadProofs.v GCMProofs.v GF128Proofs.v, Props/Properties_C05.v"])
